@@ -1,6 +1,6 @@
 \* Leader level, exhaustive: one message, two event ids, every event kind on both lanes, cache loss
 \* anywhere (schedules with cache-only events accepted after a loss excluded, see MC_finding.cfg).
-\* Measured: 627,838 distinct states, 25.6M transitions.
+\* Measured: 627,838 distinct states, 34.4M transitions.
 SPECIFICATION SpecLeader
 CONSTANTS
   Msgs = {"m1"}
